@@ -44,11 +44,13 @@ META = {
 
 def h_standard(ctx: Any, code: str, n: int, depth: int, mode: str = 'T',
                trim: bool = True, deck: str = 'identity', do_finish: bool = True,
-               rake_d: int = 0, boards: int = 1, ante_kind: str = 'uniform') -> None:
+               rake_d: int = 0, boards: int = 1, ante_kind: str = 'uniform',
+               part: Any = None) -> None:
     C.native_hands()
     C.set_deck_order(deck)
     cfg = cfg_standard(ctx, code, n, mode=mode, trim=trim, rake_d=rake_d, boards=boards,
                        ante_kind=ante_kind)
+    ctx.constrain(part)
     C.set_monitor(C.conservation_monitor(ctx))
     try:
         try:
@@ -69,17 +71,51 @@ def h_standard(ctx: Any, code: str, n: int, depth: int, mode: str = 'T',
 
 
 def jobs(tier: str, seed: int) -> list[dict]:
+    from engine.partition import weak_orders, tri, zero, product
     out = []
     deck = 'identity' if not seed else f'rot{seed % 52}'
     button = ['NT', 'FT', 'NS', 'PO', 'FO8', 'N2L1D', 'F2L3D', 'FB', 'NR']
     stud = ['F7S', 'F7S8', 'FR']
-    if tier == 'quick':
+    mc = ['constructed', 'terminal']
+    B = 400 if tier == 'quick' else 1800
+    slow = {'PO': 9, 'NT': 8, 'NR': 8, 'FO8': 8, 'FT': 7}
+    for code in button + stud:
+        if code == 'NR' and tier == 'quick':
+            continue    # same code path as NT (only the deck differs): thorough tier
+        out.append(dict(name=f'a/{code}/n2/d1/T', fn='h_standard',
+                        params=dict(code=code, n=2, depth=1, mode='T', deck=deck),
+                        budget_s=B, must_cover=mc, prio=slow.get(code, 3)))
+    for k, part in enumerate(weak_orders(['s0', 's1', 's2'])):
+        out.append(dict(name=f'a/NT/n3/d0/T/w{k}', fn='h_standard',
+                        params=dict(code='NT', n=3, depth=0, mode='T', deck=deck, part=part),
+                        budget_s=B, must_cover=mc))
+    for k in range(3):
+        out.append(dict(name=f'a/NT/n2/d2/C/k{k}', fn='h_standard',
+                        params=dict(code='NT', n=2, depth=2, mode='C', deck=deck,
+                                    ante_kind='none', _preset={'d0_k': k}),
+                        budget_s=B, must_cover=mc, prio=10 if k == 2 else 2))
+    # (d) integer rake, (b) per-player antes with trimming off
+    out.append(dict(name='d/NT/n2/d1/rake10', fn='h_standard',
+                    params=dict(code='NT', n=2, depth=1, mode='C', deck=deck, rake_d=10,
+                                ante_kind='none'),
+                    budget_s=B, must_cover=mc))
+    for trim in ((False,) if tier == 'quick' else (True, False)):
+        for k, part in enumerate(product(tri('ante0', 'ante1'), tri('s0', 's1'))):
+            out.append(dict(name=f'b/NT/n2/d0/perplayer-antes/trim{int(trim)}/p{k}', fn='h_standard',
+                            params=dict(code='NT', n=2, depth=0, mode='T', deck=deck, trim=trim,
+                                        ante_kind='per-player', part=part),
+                            budget_s=B, must_cover=mc, prio=4))
+    if tier == 'thorough':
         for code in button + stud:
-            for n in (2, 3):
-                out.append(dict(name=f'a/{code}/n{n}/d1/T', fn='h_standard',
-                                params=dict(code=code, n=n, depth=1, mode='T', deck=deck),
-                                budget_s=240, must_cover=['constructed', 'terminal']))
-        out.append(dict(name='a/NT/n2/d2/C', fn='h_standard',
-                        params=dict(code='NT', n=2, depth=2, mode='C', deck=deck),
-                        budget_s=240, must_cover=['constructed', 'terminal']))
+            for k, part in enumerate(weak_orders(['s0', 's1', 's2'])):
+                out.append(dict(name=f'a/{code}/n3/d1/T/w{k}', fn='h_standard',
+                                params=dict(code=code, n=3, depth=1, mode='T', deck=deck, part=part),
+                                budget_s=B, must_cover=mc))
+        for code in ('NT', 'PO', 'FT', 'F7S', 'N2L1D'):
+            for k in range(3):
+                for k1 in range(3):
+                    out.append(dict(name=f'a/{code}/n2/d3/C/k{k}{k1}', fn='h_standard',
+                                    params=dict(code=code, n=2, depth=3, mode='C', deck=deck,
+                                                _preset={'d0_k': k, 'd1_k': k1}),
+                                    budget_s=B, must_cover=mc))
     return out
